@@ -9,6 +9,7 @@ import (
 	"fmt"
 	"go/ast"
 	"go/parser"
+	"go/printer"
 	"go/token"
 	"os"
 	"os/exec"
@@ -454,8 +455,26 @@ func dropDeferredWipes(list []ast.Stmt) []ast.Stmt {
 	return out
 }
 
+// hoistIfInit rewrites `if init; cond { .. }` as `init; if cond { .. }`: the
+// two differ only in the scope of the names init declares, which matching
+// modulo renaming does not observe.
+func hoistIfInit(list []ast.Stmt) []ast.Stmt {
+	var out []ast.Stmt
+	for _, st := range list {
+		if is, ok := st.(*ast.IfStmt); ok && is.Init != nil {
+			c := *is
+			c.Init = nil
+			out = append(out, is.Init, &c)
+			continue
+		}
+		out = append(out, st)
+	}
+	return out
+}
+
 func (m *matcher) stmts(a, b []ast.Stmt) bool {
 	a, b = dropDeferredWipes(a), dropDeferredWipes(b)
+	a, b = hoistIfInit(a), hoistIfInit(b)
 	if len(a) != len(b) {
 		return m.fail("statement count %d vs %d", len(a), len(b))
 	}
@@ -607,6 +626,9 @@ func flattenStmts(list []ast.Stmt, out *[]ast.Stmt) {
 		case *ast.SwitchStmt:
 			*out = append(*out, s)
 			flattenStmts(s.Body.List, out)
+		case *ast.TypeSwitchStmt:
+			*out = append(*out, s)
+			flattenStmts(s.Body.List, out)
 		case *ast.CaseClause:
 			flattenStmts(s.Body, out)
 		default:
@@ -645,7 +667,13 @@ func embedsInOrder(forkBody *ast.BlockStmt, refStmts []ast.Stmt) (bool, string) 
 			}
 		}
 		if !found {
-			return false, fmt.Sprintf("reference statement #%d has no counterpart (in order) in the fork", i+1)
+			var sb strings.Builder
+			_ = printer.Fprint(&sb, token.NewFileSet(), rs)
+			txt := strings.Join(strings.Fields(sb.String()), " ")
+			if len(txt) > 80 {
+				txt = txt[:80] + "..."
+			}
+			return false, fmt.Sprintf("reference statement #%d (%s) has no counterpart (in order) in the fork", i+1, txt)
 		}
 	}
 	return true, ""
